@@ -6,8 +6,9 @@
     ([rp] = the [record_provenance] argument, [g] = the generic parameters stored by
     [EstimationMethod.__init__], [args] = the arguments of the method's [run()] in signature
     order); [preprocess_provenance] / [split_provenance] likewise for [preprocess_ts] /
-    [split_disjoint_nodes].  [dump] = [json.dumps] of the provenance document, [None] when a
-    value is not JSON serialisable; the statements hold for every [dump]. *)
+    [split_disjoint_nodes].  [dump] = [json.dumps(..., default=_json_default)] of the provenance
+    document (numpy arrays and scalars are converted), [None] when a value is not JSON
+    serialisable even so; the statements hold for every [dump]. *)
 From Coq Require Import String List Bool ZArith.
 From TsdateV Require Import model.Glue proofs.GlueProv.
 Import ListNotations.
@@ -74,17 +75,17 @@ Theorem C33_preprocess_parameters :
 Proof. exact prep_parameters. Qed.
 Print Assumptions C33_preprocess_parameters.
 
-(** "each call ... appends exactly one valid record" is false of the faithful model when a
-    parameter value is not JSON serialisable (finding K4: numpy arrays / numpy integers /
-    float32): with recording on the call raises instead of returning *)
-Theorem C33_unserialisable_refuted :
-  exists rp m (g : generic Z) args (prov : list (list (string * Z))),
-    recording rp = true /\ run_date_prov rp m g args prov = None.
-Proof.
-  exact (ex_intro _ (Some true) (ex_intro _ 1%Z (ex_intro _ (mkGeneric 11%Z 12%Z 13%Z 14%Z 0%Z)
-        (ex_intro _ [21; 22; 23; 24; 25; 26]%Z (ex_intro _ [] (conj eq_refl prov_unserialisable_example)))))).
-Qed.
-Print Assumptions C33_unserialisable_refuted.
+(** the one way a dating call that records can fail to append its record: a parameter value that
+    [json.dumps(..., default=_json_default)] cannot encode makes the whole call raise (no tree
+    sequence is returned).  Before the repair of finding K4 (commit 41e0a45) numpy arrays, numpy
+    integers and float32 were such values; they are now written as lists / python numbers, and no
+    documented parameter form is left in this case *)
+Theorem C33_undumpable_value_raises :
+  forall (pv : Type) (pv_string : string -> pv) (record : Type) dump m g args (prov : list record) rp,
+    recording rp = true -> dump (date_params pv pv_string m g args) = None ->
+    date_provenance pv pv_string record dump rp m g args prov = None.
+Proof. exact date_unserialisable. Qed.
+Print Assumptions C33_undumpable_value_raises.
 
 (** non-vacuity: an inside_outside call on a table with one earlier record *)
 Example C33_nonvacuous :
